@@ -247,3 +247,94 @@ Proof. vm_compute. repeat split; reflexivity. Qed.
 (* ---- non-vacuity of the premises of (a) ---- *)
 Example C07_calls_ok_example : dz_calls_ok 3 [(0, Some [1;2;3]%N); (7, Some [4]%N); (0, None)].
 Proof. repeat constructor; cbn; lia. Qed.
+
+(* ==== MORE LAYERS AND THE RESTART PATH (PDecompLayers*.v), relative to the same inflate contract, never an axiom ====
+   C07_layers_faithful: a Content-Encoding list of n >= 1 gzip / deflate codings within the layer limit (or no limit); the wire stream s is valid for the outermost
+   format with payload p1, p1 valid for the next format, ..., down to the payload p (dzl_valid: one contract instance per layer, independent decoder states):
+   for EVERY chunking of s the bytes handed to the body callback are exactly p. (Holds for every n since /repo 6159658: before, the token loop built n - 1
+   layers for n >= 4 codings at limit n -- the defect this proof exposed.)
+   C07_restart_faithful: the body is really in the OTHER format than the announced one (deflate announced, gzip sent, or the reverse) and the first inflate
+   call of the first data call fails: after the two restarts the payload is delivered faithfully for every chunking of the rest. The premise "fails on the
+   FIRST call" is the complement of the listed finding F12 (C07_F12_premise_needed: cut after one byte, the wrong decoder swallows it, the payload is lost). *)
+Require Import Htp.Proof.PDecompLayers Htp.Proof.PDecompLayersRestart.
+Local Close Scope Z_scope.
+Theorem C07_layers_faithful :
+  forall (zst : Type) (zinit : Z -> zst) (zinflate : zst -> bytes -> nat -> zst * nat * bytes * Z) (zvalid : zst -> bytes -> bytes -> Prop),
+       (forall (z : zst) (s pp : bytes) (offered rest : list N) (ao : nat),
+        zvalid z s pp ->
+        s = offered ++ rest ->
+        offered <> [] ->
+        0 < ao ->
+        let
+        '(z', cn, out, rc) := zinflate z offered ao in
+         cn <= length offered /\
+         length out <= ao /\
+         (exists p' : list N,
+            pp = out ++ p' /\
+            (rc = c_dz_Z_OK /\ zvalid z' (skipn cn s) p' /\ 0 < cn + length out /\ skipn cn s <> [] \/ rc = c_dz_Z_STREAM_END /\ skipn cn s = [] /\ p' = []))) ->
+       forall (c : dz_cfg) (t0 : Z * Z),
+       (forall k : nat, dc_clock c k = t0) ->
+       (0 <= dc_tlimit c)%Z ->
+       (forall k : nat, dc_hook c k = c_HTP_OK) ->
+       forall p : bytes,
+       (Z.of_nat (length p) <= dc_bomb c)%Z ->
+       0 < dc_fuel c ->
+       dc_enabled c = true ->
+       forall (fs : list Z) (B : nat) (s : bytes) (chunks : list (list N)),
+       fs <> [] ->
+       dc_layers c = 0%Z \/ (Z.of_nat (length fs) <= dc_layers c)%Z ->
+       dzl_valid zst zinit zvalid c B fs s p ->
+       concat chunks = s ->
+       Forall (fun ch : list N => ch <> [] /\ length ch <= B /\ (Z.of_nat (length ch) <= c_dz_UINT32_MAX)%Z) chunks ->
+       dz_devs
+         (tx_w (list (dzl_rs zst))
+            (fst
+               (dz_run (list (dzl_rs zst)) (dzl_ask zst zinit zinflate) c (Some (dzl_ce fs)) (map (fun ch : list N => (0%Z, Some ch)) chunks ++ [(0%Z, None)])
+                  []))) = p.
+Proof. exact dzl_layers_faithful. Qed.
+Print Assumptions C07_layers_faithful.
+Theorem C07_restart_faithful :
+  forall (zst : Type) (zinit : Z -> zst) (zinflate : zst -> bytes -> nat -> zst * nat * bytes * Z) (zvalid : zst -> bytes -> bytes -> Prop),
+       (forall (z : zst) (s pp : bytes) (offered rest : list N) (ao : nat),
+        zvalid z s pp ->
+        s = offered ++ rest ->
+        offered <> [] ->
+        0 < ao ->
+        let
+        '(z', cn, out, rc) := zinflate z offered ao in
+         cn <= length offered /\
+         length out <= ao /\
+         (exists p' : list N,
+            pp = out ++ p' /\
+            (rc = c_dz_Z_OK /\ zvalid z' (skipn cn s) p' /\ 0 < cn + length out /\ skipn cn s <> [] \/ rc = c_dz_Z_STREAM_END /\ skipn cn s = [] /\ p' = []))) ->
+       forall (c : dz_cfg) (t0 : Z * Z),
+       (forall k : nat, dc_clock c k = t0) ->
+       (0 <= dc_tlimit c)%Z ->
+       (forall k : nat, dc_hook c k = c_HTP_OK) ->
+       forall p : bytes,
+       (Z.of_nat (length p) <= dc_bomb c)%Z ->
+       forall fmtA fmtB wbA wbB : Z,
+       fmtA = c_dz_COMPRESSION_DEFLATE /\ fmtB = c_dz_COMPRESSION_GZIP /\ wbA = (-15)%Z /\ wbB = (15 + 32)%Z \/
+       fmtA = c_dz_COMPRESSION_GZIP /\ fmtB = c_dz_COMPRESSION_DEFLATE /\ wbA = (15 + 32)%Z /\ wbB = (-15)%Z ->
+       dc_enabled c = true ->
+       forall (ce : bytes) (ch1 : list N) (chunks : list (list N)) (o : zst),
+       fmtA = c_dz_COMPRESSION_GZIP /\ ce = s_gzip \/ fmtA = c_dz_COMPRESSION_DEFLATE /\ ce = s_deflate ->
+       zvalid (zinit wbB) (concat (ch1 :: chunks)) p ->
+       dz_probe ch1 = 0 ->
+       dzr_fails zst zinflate (zinit wbA) ch1 ->
+       Forall (fun ch : list N => ch <> [] /\ (Z.of_nat (length ch) <= c_dz_UINT32_MAX)%Z /\ length ch + length p + 2 < dc_fuel c) (ch1 :: chunks) ->
+       dz_devs (tx_w zst (fst (dz_run zst (zask zst zinit zinflate) c (Some ce) (map (fun ch : list N => (0%Z, Some ch)) (ch1 :: chunks) ++ [(0%Z, None)]) o))) =
+       p.
+Proof. exact dzr_restart_faithful. Qed.
+Print Assumptions C07_restart_faithful.
+Theorem C07_F12_premise_needed :
+  let split := dzr_ex_run s_deflate [firstn 1 dzr_ex_sB; skipn 1 dzr_ex_sB] in
+       let whole := dzr_ex_run s_deflate [dzr_ex_sB] in
+       dz_devs (tx_w dzr_toy whole) = dzr_ex_p /\
+       w_late dzr_toy (tx_w dzr_toy whole) = false /\
+       w_trace dzr_toy (tx_w dzr_toy whole) = true /\
+       dz_devs (tx_w dzr_toy split) = skipn 1 dzr_ex_sB /\
+       dz_devs (tx_w dzr_toy split) <> dzr_ex_p /\
+       w_late dzr_toy (tx_w dzr_toy split) = true /\
+       ~ dzr_fails dzr_toy dzr_toy_inflate (dzr_toy_init (-15)) (firstn 1 dzr_ex_sB) /\ dzr_fails dzr_toy dzr_toy_inflate (dzr_toy_init (-15)) dzr_ex_sB.
+Proof. exact dzr_F12_premise_needed. Qed.
